@@ -4,9 +4,18 @@
         -> cap floor caplet[1..n] floorlet[1..n]
      SWAPTION <code> <5 model params> <s> <K> <texp> <pv01> <dfSettle> <N>  -> payer receiver
    model codes: 1 Black(vol) 2 BlackShifted(vol, shift) 3 Bachelier(vol) 4 SABR 5 SABRShifted (Black vol per option
-   is an input) 6 HWTree(sigma, a). -/
+   is an input) 6 HWTree(sigma, a).
+   Model price functions, one option at a time (the functions the theorems of Props/C08c are about):
+     MODELVAL <code> <ty> f k t df p1 p2 -> value [hand]
+        1 Black.value glue on generated black_value (p1 = vol) 2 generated BlackShifted.value (p1 = vol, p2 = shift)
+        3 generated Bachelier.value (p1 = vol) 4 / 5 GENERATED SABR.value / SABRShifted.value (Gen/RateOptF; p1 = the
+        Black vol) followed by the hand model `sabrValue` on the same inputs
+     HWZCB texp tmat strike face ptExp ptMat sigma a -> genCall genPut handCall handPut | E:<tag>
+        (GENERATED HWTree.option_on_zcb of Gen/RateOptF, then the hand model `hwZcb`)
+     BLACKVEGA f t k r v ty -> generated black_vega -/
 import FinVerif.Driver.Util
 import FinVerif.Gen.BSF
+import FinVerif.Gen.RateOptF
 import FinVerif.Model.C08
 import FinVerif.Model.NormCdf
 open FinVerif FinVerif.Driver FinVerif.Gen FinVerif.Model.C08
@@ -74,10 +83,50 @@ def swaption (args : List String) : String :=
      | _, _ => "bad-op")
   | _ => "bad-op"
 
+def showExF : Except PyErr Float → String
+  | .ok x => showFloat x
+  | .error e => "E:" ++ e.tag
+
+def modelval (args : List String) : String :=
+  match args with
+  | c :: ty :: rest =>
+    (match c.toInt?, ty.toInt?, floats? rest with
+     | some code, some ty, some [f, k, t, df, p1, p2] =>
+       (match code with
+        | 1 => showFloat (blackModelValue floatKern p1 f k t df ty)
+        | 2 => showExF (BSF.black_shifted_value f k t df ty p2 p1)
+        | 3 => showExF (BSF.bachelier_value f k t df ty p1)
+        | 4 => showExF (RateOptF.sabr_value f k t df ty p1) ++ " " ++ showFloat (sabrValue floatKern p1 f k t df ty)
+        | 5 => showExF (RateOptF.sabr_shifted_value f k t df ty p1) ++ " " ++ showFloat (sabrValue floatKern p1 f k t df ty)
+        | _ => "bad-op")
+     | _, _, _ => "bad-op")
+  | _ => "bad-op"
+
+def hwzcb (args : List String) : String :=
+  match floats? args with
+  | some [te, tm, strike, face, pe, pm, sigma, a] =>
+    (match RateOptF.hw_option_on_zcb te tm strike face pe pm sigma a with
+     | .ok (c, p) =>
+       let h := hwZcb floatKern sigma a te tm strike face pe pm
+       showFloats [c, p, h.1, h.2]
+     | .error e => "E:" ++ e.tag)
+  | _ => "bad-op"
+
+def blackvega (args : List String) : String :=
+  match args with
+  | [f, t, k, r, v, ty] =>
+    (match floats? [f, t, k, r, v], ty.toInt? with
+     | some [f, t, k, r, v], some ty => showExF (BSF.black_vega f t k r v ty)
+     | _, _ => "bad-op")
+  | _ => "bad-op"
+
 def step (t : List String) : String :=
   match t with
   | "CAPFLOOR" :: a => capfloor a
   | "SWAPTION" :: a => swaption a
+  | "MODELVAL" :: a => modelval a
+  | "HWZCB" :: a => hwzcb a
+  | "BLACKVEGA" :: a => blackvega a
   | _ => "bad-op"
 
 def main : IO Unit := loop step
